@@ -68,6 +68,8 @@ def build(config="plain"):
 
         def formula(p, period):
             v = p("base", period) + 1
+            if FAIL["on"] == "interrupt":
+                raise KeyboardInterrupt()
             if FAIL["on"]:
                 raise RuntimeError("injected failure")
             return v
@@ -118,6 +120,30 @@ def build(config="plain"):
 
         def formula(p, period):
             return (p("base", period) > 1) + (p("base", period) > 2)
+    class loop_a(variables.Variable):
+        value_type = int
+        entity = person
+        definition_period = M
+
+        def formula(p, period):
+            return p("loop_b", period) + 1
+
+    class loop_b(variables.Variable):
+        value_type = int
+        entity = person
+        definition_period = M
+
+        def formula(p, period):
+            return p("loop_a", period) + 1
+
+    class wrongsize(variables.Variable):
+        value_type = float
+        entity = person
+        definition_period = M
+
+        def formula(p, period):
+            return numpy.zeros(p.count + 1) if FAIL["on"] == "size" else p.filled_array(3.0)
+
     class label(variables.Variable):
         value_type = str
         entity = person
@@ -154,7 +180,7 @@ def build(config="plain"):
 
         def formula_2014_01_01(p, period):
             return p.filled_array(10)
-    tbs.add_variables(salary, base, tax, net, status, fragile, wrapper, stock, flow, flags, deep, label, flag, wide, twice_wide, midmonth)
+    tbs.add_variables(salary, base, tax, net, status, fragile, wrapper, stock, flow, flags, deep, label, flag, wide, twice_wide, midmonth, loop_a, loop_b, wrongsize)
     if config == "neutralized":
         tbs.neutralize_variable("tax")
     if config == "neutralized-status":
@@ -324,9 +350,26 @@ def scenario_failure(config="plain"):
         if got != exp:
             problems.append(f"[{config}] after a failed request {name}@{period} = {got}, a fresh simulation gives {exp}")
             break
+    # a formula whose result has not one value per entity: refused, nothing recorded, and the request succeeds once it is repaired
+    FAIL["on"] = "size"
+    try:
+        try:
+            r = sim.calculate("wrongsize", "2016-01")
+            problems.append(f"[{config}] a formula result of the wrong length was accepted: {r.tolist()}")
+        except ValueError:
+            pass
+    finally:
+        FAIL["on"] = False
+    if sim.persons.get_holder("wrongsize").get_array(P.period("2016-01")) is not None:
+        problems.append(f"[{config}] a formula result of the wrong length was recorded")
+    try:
+        if sim.calculate("wrongsize", "2016-01").tolist() != [3.0, 3.0]:
+            problems.append(f"[{config}] once the formula is repaired the request does not give its value")
+    except Exception as e:
+        problems.append(f"[{config}] once the formula is repaired the request still fails: {type(e).__name__}")
     if config == "trace":
         trees = sim.tracer.trees
-        if len(trees) != 1 + len(REQUESTS):
+        if len(trees) != 3 + len(REQUESTS):
             problems.append(f"[trace] {len(trees)} trees for {1 + len(REQUESTS)} top-level requests: later requests were not logged at top level")
     return problems
 
@@ -357,6 +400,39 @@ def scenario_trace():
     return problems
 
 
+def scenario_interrupt_and_cycle():
+    problems = []
+    from openfisca_core import errors, periods as P_
+    for spelling in ("2016-01", P_.period("2016-01")):
+        tbs, sim = build()
+        try:
+            r = sim.calculate("loop_a", spelling)
+            problems.append(f"a circular definition asked for the period {spelling!r} returned {r.tolist()} instead of a circular-definition error")
+        except errors.CycleError:
+            pass
+        if sim.tracer.stack:
+            problems.append("the evaluation stack is not empty after a refused circular request")
+    tbs, sim = build()
+    inputs(sim)
+    FAIL["on"] = "interrupt"
+    try:
+        try:
+            sim.calculate("wrapper", "2016-01")
+        except KeyboardInterrupt:
+            pass
+    finally:
+        FAIL["on"] = False
+    if sim.tracer.stack:
+        problems.append(f"the evaluation stack is not empty after an interrupted request: {sim.tracer.stack}")
+    else:
+        try:
+            if sim.calculate("wrapper", "2016-01").tolist() != [16, 16]:
+                problems.append("the request does not succeed once the interruption is gone")
+        except Exception as e:
+            problems.append(f"after an interrupted request the same request fails with {type(e).__name__}: {e}")
+    return problems
+
+
 def scenario_delete(config="plain"):
     """deleting one definition period / a longer period removes exactly the stored periods inside, under the storage setting"""
     import numpy
@@ -379,7 +455,7 @@ def scenario_delete(config="plain"):
 def run(call):
     try:
         which = call.get("scenarios") or ["precedence", "order", "order-trace", "order-disk", "order-blacklist", "failure", "failure-trace", "trace",
-                                          "delete", "delete-disk"]
+                                          "delete", "delete-disk", "interrupt-and-cycle"]
         problems = []
         for s in which:
             if s == "precedence":
@@ -390,6 +466,8 @@ def run(call):
                 problems += scenario_failure(s.split("-", 1)[1] if "-" in s else "plain")
             elif s == "trace":
                 problems += scenario_trace()
+            elif s == "interrupt-and-cycle":
+                problems += scenario_interrupt_and_cycle()
             elif s.startswith("delete"):
                 problems += scenario_delete(s.split("-", 1)[1] if "-" in s else "plain")
             if problems:
